@@ -27,7 +27,7 @@ func smoke() {
 		fmt.Println(err)
 		return
 	}
-	env := &check.Env{Bins: &world.Bins{Bin: bres.Bin, RaceBin: bres.RaceBin, Sources: bres.Sources}, Base: scratch, Keep: true, Known: loadKnown().classifyAny}
+	env := &check.Env{Bins: &world.Bins{Bin: bres.Bin, RaceBin: bres.RaceBin, TrimBin: bres.TrimBin, Sources: bres.Sources}, Base: scratch, Keep: true, Known: loadKnown().classifyAny}
 	src := newSource(prop, seed, "quick")
 	w := src.world(idx)
 	out := check.RunWorld(env, w)
@@ -61,7 +61,7 @@ func witness() {
 		return
 	}
 	kf := loadKnown()
-	env := &check.Env{Bins: &world.Bins{Bin: bres.Bin, RaceBin: bres.RaceBin, Sources: bres.Sources}, Base: scratch, Known: kf.classifyAny}
+	env := &check.Env{Bins: &world.Bins{Bin: bres.Bin, RaceBin: bres.RaceBin, TrimBin: bres.TrimBin, Sources: bres.Sources}, Base: scratch, Known: kf.classifyAny}
 	src := newSource(prop, seed, "quick")
 	for i := 0; i < 20000; i++ {
 		w := src.world(i)
